@@ -1125,4 +1125,258 @@ theorem ringN_step {cfg : Cfg} {M : List Nat} {adr : Nat → Nat} {n : Net} {v :
     | pass => exact stepNX_pass h hok hph now e
   · exact stepL h hok i hix now e
 
+/-! ## Whole runs -/
+
+theorem Net.poll_len (n : Net) (i : Nat) (now : Int) : (n.poll i now).1.stations.length = n.stations.length := by
+  unfold Net.poll
+  rcases n.bus.deliver i now with ⟨bus, inc⟩
+  simp only
+  cases n.stations[i]? with
+  | none => rfl
+  | some st =>
+    simp only
+    split
+    · rfl
+    · split <;> simp
+
+theorem Net.poll_seenN (n : Net) (i : Nat) (now : Int) : (n.poll i now).1.bus.seen = n.bus.seen.set i now := by
+  unfold Net.poll
+  rcases hd : n.bus.deliver i now with ⟨bus, inc⟩
+  have hs : bus.seen = n.bus.seen.set i now := by
+    have : (n.bus.deliver i now).1.seen = n.bus.seen.set i now := rfl
+    rw [hd] at this
+    exact this
+  simp only
+  cases n.stations[i]? with
+  | none => exact hs
+  | some st =>
+    simp only
+    split
+    · exact hs
+    · split
+      · exact hs
+      · rename_i c _
+        cases c.tx with
+        | none => exact hs
+        | some b => exact hs
+
+/-- The schedule: events `(station, time)` in time order, every station's own poll times strictly increasing,
+at every event no station unpolled for more than `P`. -/
+def SchedN (P : Nat) : Net → Int → List (Nat × Int) → Prop
+  | _, _, [] => True
+  | n, tl, (i, now) :: rest =>
+    i < n.stations.length ∧ tl ≤ now ∧ n.bus.seen.getD i 0 < now ∧
+    (∀ j, j < n.stations.length → now ≤ n.bus.seen.getD j 0 + (P : Nat)) ∧ SchedN P (n.poll i now).1 now rest
+
+/-- The same as a condition on poll times only (`seen`: last poll times, `N`: number of stations). -/
+def SchedNT (P N : Nat) : List Int → Int → List (Nat × Int) → Prop
+  | _, _, [] => True
+  | seen, tl, (i, now) :: rest =>
+    i < N ∧ tl ≤ now ∧ seen.getD i 0 < now ∧ (∀ j, j < N → now ≤ seen.getD j 0 + (P : Nat)) ∧
+    SchedNT P N (seen.set i now) now rest
+
+theorem schedN_of_times (P : Nat) : ∀ (evs : List (Nat × Int)) (n : Net) (tl : Int),
+    SchedNT P n.stations.length n.bus.seen tl evs → SchedN P n tl evs := by
+  intro evs
+  induction evs with
+  | nil => intro _ _ _; trivial
+  | cons ev rest ih =>
+    intro n tl h
+    obtain ⟨i, now⟩ := ev
+    obtain ⟨h1, h2, h3, h4, h5⟩ := h
+    exact ⟨h1, h2, h3, h4, ih _ now (by rw [Net.poll_seenN, Net.poll_len]; exact h5)⟩
+
+/-- What a run of the stable ring WITH application traffic looks like (`turn`: address of the station whose
+turn it is, `lastEnd` / `lastSender`: end and sender of the last transmission): every poll returns regularly;
+only the station whose turn it is transmits; every transmission starts at least 33 bit times after the end of
+the previous one — strictly later if the previous one came from another station (after an own application
+telegram a station goes by its predicted end, which may be 1 µs early); it is a GAP request to a non-member
+(turn stays), the token to the cyclic successor (turn passes on), or an application telegram satisfying
+`AppP` (turn stays).  Nobody claims, retries or replies. -/
+def GoodRunA (cfg : Cfg) (M : List Nat) (adr : Nat → Nat) : Net → Nat → Int → Nat → List (Nat × Int) → Prop
+  | _, _, _, _, [] => True
+  | n, turn, lastEnd, lastSender, (i, now) :: rest =>
+    ∃ n' inc c, n.poll i now = (n', inc, some (.ok c)) ∧
+      ((c.tx = none ∧ GoodRunA cfg M adr n' turn lastEnd lastSender rest) ∨
+       (∃ b, c.tx = some b ∧ adr i = turn ∧ lastEnd + (cfg.b33 : Nat) ≤ now ∧
+          (lastSender ≠ i → lastEnd + (cfg.b33 : Nat) < now) ∧
+          ((∃ g, b = statusRequestBytes g (adr i) ∧ g ∉ M ∧
+              GoodRunA cfg M adr n' (adr i) (now + (cfg.ce (b.length - 1) : Nat)) i rest) ∨
+           (b = tokenBytes (TokenRing.cycSucc (adr i) M) (adr i) ∧
+              GoodRunA cfg M adr n' (TokenRing.cycSucc (adr i) M) (now + (cfg.ce (b.length - 1) : Nat)) i rest) ∨
+           (∃ h pdu, b = frameSpec h pdu ∧ AppP h pdu ∧
+              GoodRunA cfg M adr n' (adr i) (now + (cfg.ce (b.length - 1) : Nat)) i rest))))
+
+theorem NInv.holdT_sender {cfg : Cfg} {M : List Nat} {adr : Nat → Nat} {n : Net} {v : NView} (h : NInv cfg M adr n v)
+    (hph : v.ph = .holdT) : v.tr.sender = v.x := by
+  have hP := h.ph
+  unfold PhaseOkN at hP
+  rw [hph] at hP
+  exact hP.1
+
+theorem ringA_run {cfg : Cfg} (hok : cfg.Ok) (hP100 : cfg.P ≤ 100000) (M : List Nat) (adr : Nat → Nat) :
+    ∀ (evs : List (Nat × Int)) (n : Net) (v : NView), NInv cfg M adr n v → SchedN cfg.P n v.tl evs →
+    GoodRunA cfg M adr n (v.turn M adr) (cEnd cfg v.tr) v.tr.sender evs := by
+  intro evs
+  induction evs with
+  | nil => intro _ _ _ _; trivial
+  | cons ev rest ih =>
+    intro n v h hs
+    obtain ⟨i, now⟩ := ev
+    obtain ⟨hi, htl, hown, hgap, hrest⟩ := hs
+    have e : EvOkN cfg n v.tl i now := ⟨hi, htl, hown, hgap⟩
+    obtain ⟨n', v', inc, c, hp, hinv', htl', hcase⟩ := ringN_step h hok hP100 i now e
+    have hn' : (n.poll i now).1 = n' := by rw [hp]
+    rw [hn', ← htl'] at hrest
+    have ih' := ih n' v' hinv' hrest
+    refine ⟨n', inc, c, hp, ?_⟩
+    rcases hcase with ⟨htx, htr, hnx, -⟩ | ⟨b, htx, hit, hsync, htr, hkind⟩
+    · left
+      rw [hnx, htr] at ih'
+      exact ⟨htx, ih'⟩
+    · right
+      have hend : cEnd cfg v'.tr = now + ((cfg.ce (b.length - 1) : Nat) : Int) := by rw [htr]; rfl
+      have hsnd : v'.tr.sender = i := by rw [htr]
+      rw [hend, hsnd] at ih'
+      have hs1 : cEnd cfg v.tr + (cfg.b33 : Nat) ≤ now := by rcases hsync with h1 | ⟨-, h1⟩ <;> omega
+      have hs2 : v.tr.sender ≠ i → cEnd cfg v.tr + (cfg.b33 : Nat) < now := by
+        intro hne
+        rcases hsync with h1 | ⟨hph, -⟩
+        · exact h1
+        · exfalso
+          have hsx := h.holdT_sender hph
+          have hturn : v.turn M adr = adr v.x := by unfold NView.turn; rw [hph]
+          rw [hturn] at hit
+          exact hne (hsx.trans (h.ring.inj i v.x hi h.xlt hit).symm)
+      refine ⟨b, htx, hit, hs1, hs2, ?_⟩
+      rcases hkind with ⟨g, hb, hg, hnx, -⟩ | ⟨hb, hnx, -⟩ | ⟨hd, pdu, hb, hA, hnx, -, -⟩
+      · left; rw [hnx] at ih'; exact ⟨g, hb, hg, ih'⟩
+      · right; left; rw [hnx] at ih'; exact ⟨hb, ih'⟩
+      · right; right; rw [hnx] at ih'; exact ⟨hd, pdu, hb, hA, ih'⟩
+
+/-- The net after a run. -/
+def Net.afterN (n : Net) (evs : List (Nat × Int)) : Net := evs.foldl (fun n e => (n.poll e.1 e.2).1) n
+
+theorem ringN_inv_run {cfg : Cfg} (hok : cfg.Ok) (hP100 : cfg.P ≤ 100000) (M : List Nat) (adr : Nat → Nat) :
+    ∀ (evs : List (Nat × Int)) (n : Net) (v : NView), NInv cfg M adr n v → SchedN cfg.P n v.tl evs →
+    ∃ v', NInv cfg M adr (n.afterN evs) v' := by
+  intro evs
+  induction evs with
+  | nil => intro n v h _; exact ⟨v, h⟩
+  | cons ev rest ih =>
+    intro n v h hs
+    obtain ⟨i, now⟩ := ev
+    obtain ⟨hi, htl, hown, hgap, hrest⟩ := hs
+    have e : EvOkN cfg n v.tl i now := ⟨hi, htl, hown, hgap⟩
+    obtain ⟨n', v', inc, c, hp, hinv', htl', -⟩ := ringN_step h hok hP100 i now e
+    have hn' : (n.poll i now).1 = n' := by rw [hp]
+    rw [hn', ← htl'] at hrest
+    obtain ⟨v'', h1⟩ := ih n' v' hinv' hrest
+    refine ⟨v'', ?_⟩
+    show NInv cfg M adr (Net.afterN (n.poll i now).1 rest) v''
+    rw [hn']; exact h1
+
+/-- Silence bound: at every event the end of the last transmission lies at most `Tslot + 2P + bits 33` back. -/
+theorem ringN_silence {cfg : Cfg} {M : List Nat} {adr : Nat → Nat} {n : Net} {v : NView} (h : NInv cfg M adr n v)
+    (hok : cfg.Ok) (i : Nat) (now : Int) (e : EvOkN cfg n v.tl i now) : now ≤ cEnd cfg v.tr + (cfg.gmax : Nat) :=
+  Int.le_trans (h.now_le_H i now e) (h.horizon hok)
+
+/-! ### Without applications -/
+
+/-- No station has an application. -/
+def NoApps (n : Net) : Prop := ∀ st ∈ n.stations, st.apps = []
+
+theorem NoApps.poll {n : Net} (h : NoApps n) (i : Nat) (now : Int) : NoApps (n.poll i now).1 := by
+  unfold Net.poll
+  rcases n.bus.deliver i now with ⟨bus, inc⟩
+  simp only
+  cases hst : n.stations[i]? with
+  | none => exact h
+  | some st =>
+    simp only
+    have hsa : st.apps = [] := h st (List.mem_of_getElem? hst)
+    split
+    · exact h
+    · split
+      · rename_i m hm
+        intro st' hst'
+        rcases List.mem_or_eq_of_mem_set hst' with hm' | rfl
+        · exact h st' hm'
+        · exact hsa
+      · rename_i c hc
+        intro st' hst'
+        rcases List.mem_or_eq_of_mem_set hst' with hm' | rfl
+        · exact h st' hm'
+        · have := (poll_frame st.s st.apps now _ _ c hc).2
+          rw [hsa] at this
+          exact List.eq_nil_of_length_eq_zero this
+
+/-- What a run of the stable ring WITHOUT applications looks like (`turn`: ADDRESS of the station whose turn it
+is, `lastEnd`: end of the last transmission): every poll returns regularly; only the station whose turn it is
+transmits; every transmission starts later than 33 bit times after the end of the previous one; it is a GAP
+request to an address that is not a member (the turn stays) or the token to the cyclic successor in the
+ascending member list (the turn passes to it).  Nobody claims, retries or replies. -/
+def GoodRunN (cfg : Cfg) (M : List Nat) (adr : Nat → Nat) : Net → Nat → Int → List (Nat × Int) → Prop
+  | _, _, _, [] => True
+  | n, turn, lastEnd, (i, now) :: rest =>
+    ∃ n' inc c, n.poll i now = (n', inc, some (.ok c)) ∧
+      ((c.tx = none ∧ GoodRunN cfg M adr n' turn lastEnd rest) ∨
+       (∃ b, c.tx = some b ∧ adr i = turn ∧ lastEnd + (cfg.b33 : Nat) < now ∧
+          ((∃ g, b = statusRequestBytes g (adr i) ∧ g ∉ M ∧
+              GoodRunN cfg M adr n' (adr i) (now + (cfg.ce (b.length - 1) : Nat)) rest) ∨
+           (b = tokenBytes (TokenRing.cycSucc (adr i) M) (adr i) ∧
+              GoodRunN cfg M adr n' (TokenRing.cycSucc (adr i) M) (now + (cfg.ce (b.length - 1) : Nat)) rest))))
+
+/-- The phase is none of the application phases. -/
+def PhaseN.plain : PhaseN → Prop
+  | .holdT => False
+  | .await _ => False
+  | _ => True
+
+theorem ringN_run {cfg : Cfg} (hok : cfg.Ok) (hP100 : cfg.P ≤ 100000) (M : List Nat) (adr : Nat → Nat) :
+    ∀ (evs : List (Nat × Int)) (n : Net) (v : NView), NInv cfg M adr n v → NoApps n → v.ph.plain →
+    SchedN cfg.P n v.tl evs → GoodRunN cfg M adr n (v.turn M adr) (cEnd cfg v.tr) evs := by
+  intro evs
+  induction evs with
+  | nil => intro _ _ _ _ _ _; trivial
+  | cons ev rest ih =>
+    intro n v h hna hpl hs
+    obtain ⟨i, now⟩ := ev
+    obtain ⟨hi, htl, hown, hgap, hrest⟩ := hs
+    have e : EvOkN cfg n v.tl i now := ⟨hi, htl, hown, hgap⟩
+    obtain ⟨n', v', inc, c, hp, hinv', htl', hcase⟩ := ringN_step h hok hP100 i now e
+    have hn' : (n.poll i now).1 = n' := by rw [hp]
+    have hna' : NoApps n' := by rw [← hn']; exact hna.poll i now
+    rw [hn', ← htl'] at hrest
+    refine ⟨n', inc, c, hp, ?_⟩
+    rcases hcase with ⟨htx, htr, hnx, hph⟩ | ⟨b, htx, hit, hsync, htr, hkind⟩
+    · left
+      have hpl' : v'.ph.plain := by
+        rcases hph with hph | ⟨p, hph⟩
+        · rw [hph]; exact hpl
+        · rw [hph]; trivial
+      have ih' := ih n' v' hinv' hna' hpl' hrest
+      rw [hnx, htr] at ih'
+      exact ⟨htx, ih'⟩
+    · right
+      have hend : cEnd cfg v'.tr = now + ((cfg.ce (b.length - 1) : Nat) : Int) := by rw [htr]; rfl
+      have hs1 : cEnd cfg v.tr + (cfg.b33 : Nat) < now := by
+        rcases hsync with h1 | ⟨hph, -⟩
+        · exact h1
+        · rw [hph] at hpl; exact absurd hpl (by simp [PhaseN.plain])
+      refine ⟨b, htx, hit, hs1, ?_⟩
+      rcases hkind with ⟨g, hb, hg, hnx, hph⟩ | ⟨hb, hnx, hph⟩ | ⟨hd, pdu, hb, hA, hnx, -, hfin⟩
+      · left
+        have ih' := ih n' v' hinv' hna' (by rw [hph]; trivial) hrest
+        rw [hnx, hend] at ih'
+        exact ⟨g, hb, hg, ih'⟩
+      · right
+        have ih' := ih n' v' hinv' hna' (by rw [hph]; trivial) hrest
+        rw [hnx, hend] at ih'
+        exact ⟨hb, ih'⟩
+      · exfalso
+        obtain ⟨st, hst⟩ : ∃ st, n.stations[i]? = some st := ⟨_, List.getElem?_eq_getElem hi⟩
+        have hsa := hna st (List.mem_of_getElem? hst)
+        exact hfin st hst (fun _ _ => False) (by rw [hsa]; intro s hs; cases hs)
+
 end PV
